@@ -10,7 +10,8 @@ Everything that decides — how claims are read and which shapes are admissible,
 when scopes are satisfied, which key may justify a token, the validity window — is defined here a second time,
 declaratively, and the theorems of `Props/C05.lean` prove that the model's ladder computes exactly this.
 
-* `Spec.member`, `wellTyped`, `issuer`, `audiences`, `granted`, `date`     — reading the registered claims.
+* `Spec.member`, `wellTyped`, `issuer`, `audiences`, `granted`, `date`     — reading the registered claims
+                                                                              (`Spec.registered`: their names).
 * `Spec.inForce`                                                            — "the first level that sets a value wins".
 * `Covers`, `WildMatch`, `Satisfied`                                        — scope satisfaction as relations.
 * `Entitled`, `SubjectOf`, `Accepts`                                        — the acceptance condition.
@@ -48,6 +49,12 @@ namespace Spec
 /-- the member of a JSON object with the given name -/
 def member (k : String) (kvs : List (String × Val)) : Option Val :=
   (kvs.find? fun kv => kv.1 = k).map (·.2)
+
+/-- the names under which a payload speaks to the assertions: the registered claims of RFC 7519 plus the two spellings
+of the granted scopes.  A member under any other name (`azp`, `client_id`, `audience`, `Aud`, `expires_at`, `scopes`,
+`issuer`, …) — whatever it carries — is an attribute of the subject at most, never a reason to accept or to refuse
+(`c05_only_registered_claims_decide`, `c05_entitlement_reads_registered_claims_only`). -/
+def registered : List String := ["iss", "sub", "aud", "scp", "scope", "exp", "nbf", "iat", "jti"]
 
 /-- a textual claim is a string (or absent / `null`) -/
 def textOk : Option Val → Bool
